@@ -74,6 +74,16 @@ class Sched:
         elif ev[0] not in ("noop",):
             self.spun.clear()
 
+    def relabel_last_spin(self, ev):
+        """the calling thread's failed lock guard turned out to be a refusal (the code raised instead of sleeping):
+        replace its spin event, which must be the very last event, and treat it as an effective step"""
+        tid = self.me()
+        if self.events and self.events[-1] == (tid, ("spin",)):
+            self.events[-1] = (tid, ev)
+            self.spun.clear()
+            return True
+        return False
+
     def _body(self, tid, fn):
         self.ids[threading.get_ident()] = tid
         self.go[tid].acquire()
